@@ -283,7 +283,10 @@ def tr_quote(s):
 
 
 def tr_eval(s):
+    """s: an atom text, or None (logged as the null sentinel: 'None only for empty/None')."""
     k, txt = _evalkind(s)
+    if s is None:
+        return {'kind': 'eval', 's': ab.NULL, 'ekind': k, 'type': _typename(s), 'same': True}
     return {'kind': 'eval', 's': s, 'ekind': k, 'type': _typename(s), 'same': (k != 'str') or txt == s or s.startswith('"')}
 
 
@@ -1032,6 +1035,25 @@ def _strip_format(args):
     return [a for a in args if a not in _FMT_ARGS and not a.startswith('--indent')]
 
 
+def _split_errors(out):
+    import re as _re
+    keep, blocks, cur = [], [], set()
+    for line in out.split('\n'):
+        mm = _re.match(r'# ::error-\d+ (.*)$', line)
+        if mm:
+            v = mm.group(1)
+            k = v.rfind(') ')
+            cur.add(v[:k + 1] if v.startswith('(') and k >= 0 else '')
+            continue
+        keep.append(line)
+        if line == '' and cur:
+            blocks.append(sorted(cur))
+            cur = set()
+    if cur:
+        blocks.append(sorted(cur))
+    return '\n'.join(keep), blocks
+
+
 def tr_cli(plan, inputs, model, stdin=False, subproc=False, wellformed=True, isolated=False):
     m = _cli_model(model)
     t = {'kind': 'cli', 'plan': plan, 'model': model, 'stdin': bool(stdin), 'subproc': bool(subproc), 'input_wellformed': bool(wellformed),
@@ -1052,6 +1074,10 @@ def tr_cli(plan, inputs, model, stdin=False, subproc=False, wellformed=True, iso
         base = run_tool(_strip_format(plan['args']), inputs, stdin, False)
         t['base_graphs'] = _graphs_of(base['out'], m)
     import re as _re
+    # projections for option sets with --check: the text without the error-N metadata lines, and per output block the set of
+    # offending contexts "(s r t)" those lines name (how the entries are numbered and worded is not the pipeline's business)
+    for side in ('tool', 'lib'):
+        t[side]['noerr'], t[side]['errctx'] = _split_errors(t[side]['out'])
     nums = [int(x) for x in _re.findall(r'(?m)^# ::error-(\d+) ', t['tool']['out'])]
     t['max_errors'] = max(nums) if nums else 0
     if plan['idempotent'] and not plan['triples'] and not t['tool']['exc']:
